@@ -28,6 +28,7 @@ def variants_of(draw, base, n, kinds=None, force_plain=False):
         v, _prefix, labels = draw(mutate.rewrite(src, kinds, n_max=2))
         v['program'] = base['program']
         v['variant_labels'] = labels
+        v['variant_of'] = [i for i, o in enumerate(out) if o is src][0]
         out.append(v)
     return out
 
@@ -57,7 +58,7 @@ def _op_strategy(kinds_weighted, n_variants, allow_pm_false=False):
             return st.builds(lambda s, m, ts, r, d, how, tm: {'op': 'force_chain', 'slot': s, 'member': m, 'tasks': ts,
                                                              'recompute': r, 'delete': d, 'as': how, 'through_multi': tm},
                              slot, member, st.lists(task, min_size=1, max_size=3), st.booleans(), st.booleans(),
-                             st.sampled_from(['name', 'object', 'single', 'generator']), st.booleans())
+                             st.sampled_from(['name', 'object', 'object', 'single', 'generator']), st.booleans())
         if kind == 'fault':
             return st.builds(lambda s, m, t, how: {'op': 'fault', 'slug_of': [s, m, t], 'n': 1, 'how': how}, slot, member, task,
                              st.sampled_from(['error', 'error', 'interrupt', 'save', 'mistyped']))
@@ -79,7 +80,7 @@ def _op_strategy(kinds_weighted, n_variants, allow_pm_false=False):
 
 @st.composite
 def histories(draw, kinds_weighted, max_ops=20, n_variants=(1, 3), gen_kw=None, salt=False, session_kinds=None,
-              name_mode=False):
+              name_mode=False, variant_kinds=None):
     gen_kw = dict(gen_kw or {})
     base = draw(gen.cases(**gen_kw))
     nv = draw(st.integers(*n_variants))
@@ -103,7 +104,7 @@ def histories(draw, kinds_weighted, max_ops=20, n_variants=(1, 3), gen_kw=None, 
                 for f in v['files']:
                     f['name'] = f'{f["name"]}.nm{i}'
     else:
-        variants = draw(variants_of(base, nv - 1)) if nv > 1 else [base]
+        variants = draw(variants_of(base, nv - 1, kinds=variant_kinds)) if nv > 1 else [base]
     ops = [{'op': 'chain', 'variant': 0, 'pm': not nm}]
     opst = _op_strategy(kinds_weighted, len(variants))
     n = draw(st.integers(3, max_ops))
@@ -115,8 +116,14 @@ def histories(draw, kinds_weighted, max_ops=20, n_variants=(1, 3), gen_kw=None, 
             op['pm'] = not nm
         return op
 
+    renamed = [(v['variant_of'], i) for i, v in enumerate(variants)
+               if i and v.get('variant_labels') == ['rename_mount'] and 'variant_of' in v]
     for _ in range(n):
         op = draw(opst)
+        if op['op'] == 'multichain' and renamed and draw(st.booleans()):
+            # members that hold the same computations under differently named mounts
+            a, b = draw(st.sampled_from(renamed))
+            op['variants'] = [a, b] if draw(st.booleans()) else [b, a, a]
         if op['op'] == '__session__':
             sk = session_kinds or {'chain': 2, 'value': 5, 'inspect': 1}
             sops = [{'op': 'chain', 'variant': draw(st.integers(0, len(variants) - 1)), 'pm': not nm}]
